@@ -214,6 +214,8 @@ def gen_config(ch):
     # marathon: several hundred tiny packets in one session (counters that
     # wrap, caches that evict, buffers that are reused)
     cfg["marathon"] = bool(ch.chance(1, 60, "marathon"))
+    cfg["stall_phase"] = ch.pick([0, 0, 0, 300_000, 1_200_000, 3_000_000],
+                                 "stallphase")
     ncallers = 1 + ch.weighted([4, 3, 1], "ncallers")
     cfg["callers"] = []
     for _ in range(ncallers):
@@ -253,6 +255,7 @@ def gen_config(ch):
         cfg["peer_packets"] = []  # well behaved stub: only replies
         cfg["slow_replies"] = bool(ch.chance(1, 3, "slowreplies"))
         cfg["upper_hex"] = bool(ch.chance(1, 4, "upperhex"))
+        cfg["slow_subscriber"] = ch.pick([0, 0, 50_000, 400_000], "slowsub")
         # a halted stub that announces itself with a stop reply as soon as
         # the connection is up
         cfg["greeting"] = ch.pick([None, None, None, "S05", "T0500:44332211;"],
@@ -280,7 +283,7 @@ def gen_config(ch):
                 kinds = ["read_mem", "write_mem", "set_breakpoint",
                          "clear_breakpoint", "get_registers", "get_pc"]
                 if nb == 1:
-                    kinds += ["step", "step"]
+                    kinds += ["step", "step", "run2"]
                 k = ch.pick(kinds, "b_kind")
                 addr = ch.pick([0, 0x64, 0x1000, 0x2A, 0x23, 0x7D24],
                                "b_addr")
@@ -297,6 +300,12 @@ def gen_config(ch):
                                           for _ in range(n)]))
                 elif k in ("set_breakpoint", "clear_breakpoint"):
                     ops.append((k, addr))
+                elif k == "run2":
+                    # `run()` twice in a row (allowed, only warned about): two
+                    # 'c' commands, two stop replies that may queue up
+                    ops.append((k, ch.pick(["S05", "S02"], "b_run2a"),
+                                ch.pick(["S05", "T0500:44332211;"],
+                                        "b_run2b")))
                 elif k == "step":
                     ops.append((k, ch.pick(["S05", "S02", "S0b", "T0a00:44332211;",
                                             "T0505:01020304;",
@@ -510,8 +519,8 @@ class RefPeer:
             self.w.p2c.write(data)
 
     # -- send side
-    def enqueue(self, payload):
-        self.to_send.append(payload)
+    def enqueue(self, payload, stall_us=0):
+        self.to_send.append((payload, stall_us) if stall_us else payload)
         self.pump()
 
     def schedule(self, t_us, payload):
@@ -527,8 +536,12 @@ class RefPeer:
         if self.closed or self.outstanding is not None or not self.to_send:
             return
         payload = self.to_send.pop(0)
+        stall = 0
+        if isinstance(payload, tuple):
+            payload, stall = payload
         self.sent_order.append(payload)
-        self.outstanding = {"payload": payload, "tries": 0}
+        self.outstanding = {"payload": payload, "tries": 0,
+                            "stall_us": stall}
         self.send_frame()
 
     def send_frame(self):
@@ -552,13 +565,21 @@ class RefPeer:
             frame = corrupt_frame(ch, frame, "csum")
         self.frames_sent.append(frame)
         self.sim.log("peer", "tx_frame", frame)
-        self.emit(frame)
+        stall = o.get("stall_us", 0)
+        if stall and not self.closed:
+            # the link stalls in the middle of this packet
+            self.w.p2c.write(frame, stall_at=1 + ch.draw(len(frame) - 1,
+                                                         "stallat"),
+                             stall_us=stall)
+        else:
+            self.emit(frame)
 
         def timeout():
             if self.outstanding is o and self.token == token:
                 self.retransmit("timeout")
 
-        self.sim.after(self.ACK_TIMEOUT_US, timeout, "peer.acktimeout")
+        self.sim.after(self.ACK_TIMEOUT_US + stall, timeout,
+                       "peer.acktimeout")
 
     def retransmit(self, why):
         o = self.outstanding
@@ -757,6 +778,19 @@ class World:
                     rec["result"] = [regs.get(r) for r in ARCH.gdb_registers]
                 elif k == "get_pc":
                     rec["result"] = drv.get_pc()
+                elif k == "run2":
+                    self.pending_stops += [op[1], op[2]]
+                    before = len(self.stops_processed)
+                    drv.run()
+                    drv.run()
+                    ok = sim.block(
+                        lambda: len(self.stops_processed) >= before + 2
+                        and drv.status == STOPPED, 30_000_000,
+                        "bcaller.wait_stops")
+                    rec["result"] = "stopped" if ok else "still-running"
+                    if not ok:
+                        self.forced_stop += 1
+                        drv.status = STOPPED
                 elif k == "step":
                     self.pending_stops.append(op[1])
                     drv.step()
@@ -808,6 +842,13 @@ class World:
             return m
 
         drv._recv_message = recv
+        if cfg.get("slow_subscriber"):
+            # user code hooked on the stop event that takes its time (it runs
+            # in the driver's stop thread)
+            def on_stop():
+                sim.sleep(cfg["slow_subscriber"])
+
+            drv.events.on_stop += on_stop
         self.peer.reply_fn = self.stub_reply
         drv.connect()
         if cfg.get("greeting"):
@@ -868,6 +909,12 @@ class World:
             self.peer.enqueue(b"final}]")
             self.do_call("probe$", None)
             sim.block(self.peer.idle, 60_000_000, "main.wait_peer2")
+            if cfg.get("stall_phase"):
+                # phase 3: nothing else in flight; the link stalls for a
+                # while in the middle of one more incoming packet
+                sim.sleep(600_000)
+                self.peer.enqueue(b"tail", stall_us=cfg["stall_phase"])
+                sim.block(self.peer.idle, 60_000_000, "main.wait_peer3")
         sim.sleep(1_000_000)
         self.transport.disconnect()
         self.main_done = True
@@ -1062,7 +1109,8 @@ def judge(w, verdict):
                             f"{len(w.calls)} calls")
         exp = [p.decode("latin-1") for p in peer.sent_order]
         if got != exp or (cfg["topology"] == 0 and
-                          len(exp) != len(cfg["peer_packets"]) + 1):
+                          len(exp) != len(cfg["peer_packets"]) + 1
+                          + (1 if cfg.get("stall_phase") else 0)):
             problems.append(f"peer sent {exp!r}, on_message got {got!r}")
         if died:
             problems.append(f"threads died: {died}")
@@ -1078,7 +1126,8 @@ def judge(w, verdict):
         if not pc or pc[-1]["outcome"] != "ok":
             problems.append("sendpkt after faults stopped -> "
                             + repr(pc[-1]["outcome"] if pc else None))
-        if not got or got[-1] != "final}]":
+        want_last = "tail" if cfg.get("stall_phase") else "final}]"
+        if not got or got[-1] != want_last:
             problems.append(f"packet sent after faults stopped not "
                             f"delivered (last messages {got[-2:]!r})")
         if problems:
